@@ -9,6 +9,7 @@ CHECKS = {
     "C15": [("R-GLOBAL", "r_global", "run_global", ("quick", "thorough"))],
     "C04": [("R-ALLOC.who", "r_global", "run_alloc_who", ("quick", "thorough")),
             ("R-TMP", "r_tmp", "run", ("quick", "thorough"))],
+    "C05": [("R-ALIAS", "r_alias", "run", ("quick", "thorough"))],
     "C06": [("R-TABLES.c06", "r_tables", "run_c06", ("quick", "thorough"))],
     "C16": [("R-TABLES.c16", "r_tables", "run_c16", ("quick", "thorough"))],
     "C10": [("R-TABLES.logic", "r_tables", "run_logic", ("quick", "thorough"))],
@@ -33,6 +34,7 @@ RULES = {
     "R-TABLES.c06": ("r_tables", "run_c06"),
     "R-TABLES.c16": ("r_tables", "run_c16"),
     "R-TABLES.logic": ("r_tables", "run_logic"),
+    "R-ALIAS": ("r_alias", "run"),
 }
 
 EXPLANATION = {
